@@ -10,6 +10,7 @@ EXPLANATION = (
     "pairs of non-null variants — the necessary condition for cmp(a, b) = reverse(cmp(b, a)); (4) the sort in execute_order_by compares through "
     "order_compare. Not decided: the comparisons inside one kind (large integers against floats, NaN, strings that look like temporals, lists, "
     "maps), transitivity, stability of the sort and the exact SKIP/LIMIT positions — all value-level."
+    " C20.5: (Int, Int) ends in the exact i64 comparison and (Bool, Bool) in the bool comparison."
 )
 
 VAL = "nervusdb_query::executor::core_types::Value"
